@@ -3,6 +3,7 @@
 import json, os, re, sys
 ROUNDS = {
  "r7": "seventh round (all 20 properties; the agent was asked for a change that needs something specific to manifest — a multi-step sequence, an ordering inside a block, an unusual legal input, a fault at a particular point, or two cooperating sites — and was steered to a part of the code no earlier round had touched): a fresh sub-agent that saw only the property text and its own scratch worktree",
+ "r11": "eleventh round (six properties, brief as in round ten, agents asked to be quick): a fresh sub-agent that saw only the property text and its own scratch worktree",
  "r10": "tenth round (six properties; the brief also listed, for inspiration, the kinds of trigger earlier rounds had exposed): a fresh sub-agent that saw only the property text and its own scratch worktree",
  "r9": "ninth round (the other ten properties, same brief as rounds seven and eight, steered to yet another part of the code): a fresh sub-agent that saw only the property text and its own scratch worktree",
  "r8": "eighth round (ten properties, same brief as round seven, steered to yet another part of the code): a fresh sub-agent that saw only the property text and its own scratch worktree",
